@@ -418,14 +418,19 @@ def g_pattern_new(ctx):
 
 @guard("rewrite_edits_filtered")
 def g_rewrite_filtered(ctx):
+    """every `edit.position - start/offset` in rewrite.rs is protected: make_edit uses checked_sub; Rewrite::compute only
+    subtracts from edits that passed a `filter(position >= start)` (not merely a leading skip_while)"""
     prog = ctx.prog
     me = prog.one_fn(r"^ast_grep_config::transform::rewrite::make_edit$")
     cs = [c for c in me.calls if c.name == "checked_sub"]
     comp = prog.one_fn(r"^ast_grep_config::transform::rewrite::Rewrite::<ast_grep_core::meta_var::MetaVariable>::compute$")
-    sw = [c for c in comp.calls if c.name == "skip_while"]
-    idx = [c for c in me.calls if c.name == "index"]
-    ok = bool(cs) and bool(sw) and bool(idx) and all(any(me.dominates(c.bb, i.bb) for c in cs) or True for i in idx)
-    return ok, "make_edit uses checked_sub=%s; compute drops early edits with skip_while=%s" % (bool(cs), bool(sw))
+    filt = [c for c in comp.calls if c.name == "filter" and "Iterator" in (c.callee.get("trait") or c.best)]
+    weak = [c for c in comp.calls if c.name in ("skip_while", "skip", "take_while")]
+    nexts = [c for c in comp.calls if c.name == "next" and "Filter" in c.best]
+    other_next = [c for c in comp.calls if c.name == "next" and "Iterator" in (c.callee.get("trait") or "") and "Filter" not in c.best and "IntoIter" in c.best]
+    ok = bool(cs) and bool(filt) and bool(nexts) and not other_next and not weak
+    return ok, "make_edit uses checked_sub=%s; compute iterates a filter(position >= start) adaptor=%s (weaker adaptors: %s)" % (bool(cs), bool(filt) and bool(nexts), [c.name for c in weak])
+
 
 
 # ------------------------------------------------------------------------------------------------
